@@ -309,9 +309,7 @@ PROPS["C09"] = dict(
     assumptions=["io::Bytes yields the reader's bytes one at a time in order, whatever the chunking (std)",
                  "raw values and stream iteration are not inside the model; typed targets are modelled (Model.Typed) and run by "
                  "op tt3 (str, slice, reader outcomes of one text against deTypedTop with src = slice / reader)"],
-    partial=["typed targets: c09_typed_slice_reader bounds the shift by one byte with the reader's index the larger, but does not yet "
-             "state that the slice's index then lies strictly inside the input (the counted byte exists); checked per case by op tt3",
-             "raw, stream byte_offset: correspondence only"],
+    partial=["raw, stream byte_offset: correspondence only"],
     technique="Lean 4 theorem: the byte-step machine's outcome is independent of the slice/reader source (step-wise equality + all "
               "error sites include the offending byte); typed targets by a two-run simulation over the typed model (Proofs/TypedSim: "
               "the runs differ only at errorIdx sites with a peeked byte) + three-source differential run against the crate",
@@ -324,7 +322,8 @@ PROPS["C09"] = dict(
                "reader outcomes are identical, except that (a) a parser error with code NumberOutOfRange (128-bit integers), "
                "ExpectedNumericKey or ExpectedSomeValue (deserialize_enum) — the three self.error(code) sites reached with a byte in "
                "the peek slot — and (b) a visitor (Data) error positioned by fix_position are reported by the reader exactly one byte "
-               "later than by the slice, never earlier; c09_typed_slice_reader_class (same value / same code / both Data, index equal "
+               "later than by the slice, never earlier, and then the slice's index is that of a byte of the input (the byte in the reader's "
+               "peek slot; typed_within_input: every typed error index is <= the input length); c09_typed_slice_reader_class (same value / same code / both Data, index equal "
                "or reader = slice + 1: the predicate op tt3 evaluates), _ok, _err (every other parser error at the same index); "
                "c09_typed_str_slice / c09_typed_all_sources — on valid UTF-8 the &str source gives the identical typed outcome (the "
                "typed parser consumes ASCII outside strings, so every string starts on a character boundary). The crate is run on every "
